@@ -13,6 +13,8 @@
 //!          "ops":[{"op":"span","cs":i,"id":k,"parent":-2(contextual)|-1(root)|j,"vals":VALS}
 //!                 {"op":"enter","id":k} {"op":"exit","id":k} {"op":"record","id":k,"vals":VALS}
 //!                 {"op":"event","cs":i,"parent":-2|-1|j,"vals":VALS}
+//!                 {"op":"log","cs":i,"msg":hex,"module":null|hex}   (`log` build only: a record of the `log` crate with the
+//!                                          level / target / file / line of callsite i goes through tracing-log's LogTracer)
 //!                 {"op":"close","id":k}   (the handle is dropped; the driver only does this when nothing else
 //!                                          refers to the span, so that it closes right here)]}
 //! VALS  = [[field_index, {"t":TYPE,"v":...}], ...]   (array order = order of the pairs in the ValueSet)
@@ -325,6 +327,33 @@ fn run_ops(case: &J, rec: &Rec, out: &Arc<Mutex<Out>>, disp: &Dispatch) {
                     -1 => Event::child_of(None, meta, vs),
                     _ => Event::child_of(pid.clone(), meta, vs),
                 });
+            }
+            "log" => {
+                #[cfg(feature = "log")]
+                {
+                    let c = &case["callsites"][op["cs"].as_u64().unwrap() as usize];
+                    let lvl = [log::Level::Error, log::Level::Warn, log::Level::Info, log::Level::Debug, log::Level::Trace]
+                        [c["level"].as_u64().unwrap() as usize];
+                    let target = hstr(&c["target"]);
+                    let file = if c["file"].is_null() { None } else { Some(hstr(&c["file"])) };
+                    let line = c["line"].as_u64().map(|l| l as u32);
+                    let module = if op["module"].is_null() { None } else { Some(hstr(&op["module"])) };
+                    let msg = hstr(&op["msg"]);
+                    let tracer = tracing_log::LogTracer::new();
+                    log::Log::log(
+                        &tracer,
+                        &log::Record::builder()
+                            .args(format_args!("{}", msg))
+                            .level(lvl)
+                            .target(&target)
+                            .module_path(module.as_deref())
+                            .file(file.as_deref())
+                            .line(line)
+                            .build(),
+                    );
+                }
+                #[cfg(not(feature = "log"))]
+                panic!("op log needs the log build");
             }
             "close" => {
                 drop(spans.remove(&op["id"].as_i64().unwrap()).expect("live span handle"));
